@@ -36,13 +36,14 @@ VM_CLOSURES = {"Add": "(a + b)", "Sub": "(a - b)", "Mul": "(a * b)", "Div": "(a 
 LITERALS = {"Integer": "Object::Integer", "Float": "Object::Float", "Str": "Object::Str", "Char": "Object::Char", "Byte": "Object::Byte"}
 SHARED = {"jump-landing-height", "jump-patched-once", "back-jump-height", "loop-exit-height", "jump-operand", "join-height", "join-scope", "peephole-remove",
           "peephole-state", "loop-stack-balance", "loop-fixpoint", "loop-height", "break-bookkeeping", "compile-error-dropped", "return-guard", "opcode-effect",
-          "operand-underflow", "function-ends-with-return", "scope-pairing"}
+          "operand-underflow", "function-ends-with-return", "scope-pairing", "child-order"}
 
 
-def ops_of(s, key):
-    """operator strings the path is feasible for, from the string patterns it matched / did not match; None = any other"""
-    pos = s.facts.get("strpat:" + key, ())
-    neg = set(s.facts.get("strnot:" + key, ()))
+def ops_of(s, ckey, pname):
+    """operator strings the path is feasible for, from the string patterns it matched / did not match; None = any other.
+    ckey is the canonical (name-independent) key of the operator field, e.g. `$:Binary.operator`"""
+    pos = e5run.cfact(s, pname, "strpat", ckey) or ()
+    neg = set(e5run.cfact(s, pname, "strnot", ckey) or ())
     if not pos:
         return None, neg
     cur = set(pos[0])
@@ -120,18 +121,18 @@ def run(F, R, tier):
     seen_ops = {}
     bad = []
     for s in oks:
-        ops, neg = ops_of(s, "binary.operator")
-        order = tuple(o[0] for o in s.order)
+        ops, neg = ops_of(s, "$:Binary.operator", r["pname"])
+        order = tuple(o[0] for o in e5run.corder(s, r["pname"]))
         em = [e[0] for e in s.emits]
         if ops is None:
             continue
         for o in sorted(ops):
             if o in ("&&", "||"):
-                want_order = ("binary.left", "binary.right")
+                want_order = ("$:Binary.left", "$:Binary.right")
                 want_em = ["JumpIfFalseNoPop", "Pop"] if o == "&&" else ["JumpIfFalseNoPop", "Jump", "Pop"]
                 okp = order == want_order and em == want_em
             else:
-                want_order = ("binary.right", "binary.left") if o in ("<", "<=") else ("binary.left", "binary.right")
+                want_order = ("$:Binary.right", "$:Binary.left") if o in ("<", "<=") else ("$:Binary.left", "$:Binary.right")
                 okp = order == want_order and em == [BIN_REF.get(o)]
             seen_ops.setdefault(o, []).append(okp)
             if not okp:
@@ -148,39 +149,32 @@ def run(F, R, tier):
     oks, r = paths("Unary")
     got = {}
     for s in oks:
-        ops, _ = ops_of(s, "u.operator")
+        ops, _ = ops_of(s, "$:Unary.operator", r["pname"])
         for o in (ops or ()):
-            got[o] = (tuple(x[0] for x in s.order), [e[0] for e in s.emits])
+            got[o] = (tuple(x[0] for x in e5run.corder(s, r["pname"])), [e[0] for e in s.emits])
     for o, opc in sorted(UN_REF.items()):
-        R.ob("operand-order", "unary `%s`: operand, then %s" % (o, opc), got.get(o) == (("u.right",), [opc]), str(got.get(o)), F.loc(f))
+        R.ob("operand-order", "unary `%s`: operand, then %s" % (o, opc), got.get(o) == (("$:Unary.right",), [opc]), str(got.get(o)), F.loc(f))
     simple = {
-        "Assign": [("expr.right", "expr.left")],
-        "Index": [("expr.left", "expr.index")],
-        "Dot": [("expr.left", "expr.property")],
-        "Array": [(), ("e",)],
-        "Hash": [(), ("key", "value")],
-        "Call": [("call.func",), ("call.func", "arg")],
+        "Assign": [("$:Assign.right", "$:Assign.left")],
+        "Index": [("$:Index.left", "$:Index.index")],
+        "Dot": [("$:Dot.left", "$:Dot.property")],
+        "Array": [(), ("$:Array.elements[]",)],
+        "Hash": [(), ("$:Hash.pairs[].0", "$:Hash.pairs[].1")],
+        "Call": [("$:Call.func",), ("$:Call.func", "$:Call.args[]")],
     }
     texts = {"Assign": "assignment: the value, then the target's sub-expressions", "Index": "indexing: the indexed expression, then the index",
              "Dot": "property: the object, then the property", "Array": "array literal: elements", "Hash": "map literal: key then value per pair",
              "Call": "call: the callee, then the arguments"}
     for var, want in simple.items():
         oks, r = paths(var)
-        orders = sorted({tuple(o[0] for o in s.order if o != ("…",)) for s in oks})
+        orders = sorted({tuple(o[0] for o in e5run.corder(s, r["pname"]) if o != ("…",)) for s in oks})
         R.ob("operand-order", texts[var], bool(oks) and all(o in want for o in orders) and want[-1] in orders, str(orders), F.loc(f))
-    # forward iteration over child lists
-    n_loops = 0
-    for fn in ("compile_expression", "compile_statements", "compile_block_statement", "compile_function_literal", "compile_match_expression"):
-        h = F.fn(C + fn)
-        if h is None:
-            continue
-        for x in H.walk(H.body_of(h)):
-            if x.get("k") == "match" and x.get("src", "").startswith("ForLoopDesugar"):
-                t = H.render(x["scrut"]["args"][0])
-                if any(k in t for k in ("elements", "pairs", "args", "params", "statements", "arms", "patterns", "free_symbols")):
-                    n_loops += 1
-                    R.ob("forward-iteration", "%s: for … in %s" % (fn, t), ".rev()" not in t and "sort" not in t, "", F.loc(h), nontrivial=False)
-    R.floor("loops over AST child lists", n_loops, 9)
+    # forward iteration over child lists: decided inside the emission verifier (rule `child-order`: a loop over a
+    # reversed AST list, or an in-place modification (sort, reverse, swap, retain, ..) of an AST list before it is
+    # compiled, in any function the verifier interprets, helpers included)
+    co = [v for v in res["viol"] if v[0] == "child-order"]
+    R.ob("forward-iteration", "child lists (elements, pairs, arguments, parameters, statements, arms, patterns) are compiled in source order",
+         not co, "; ".join(sorted({v[1] for v in co}))[:300], F.loc(f))
     # VM side
     arms = vm_arms(F, R)
     bo = F.fn("vm::interpreter::VM::binary_op")
